@@ -60,9 +60,12 @@ U8Enc(c) ==
     ELSE IF c < 65536 THEN <<224 + (c \div 4096), 128 + ((c \div 64) % 64), 128 + (c % 64)>>
     ELSE <<240 + (c \div 262144), 128 + ((c \div 4096) % 64), 128 + ((c \div 64) % 64), 128 + (c % 64)>>
 
-RECURSIVE U8EncFrom(_, _)
-U8EncFrom(cs, i) == IF i > Len(cs) THEN <<>> ELSE U8Enc(cs[i]) \o U8EncFrom(cs, i + 1)
-U8EncSeq(cs) == U8EncFrom(cs, 1)
+RECURSIVE U8EncRange(_, _, _)
+U8EncRange(cs, lo, hi) ==          \* balanced: recursion depth log2(Len)
+    IF lo > hi THEN <<>>
+    ELSE IF lo = hi THEN U8Enc(cs[lo])
+    ELSE LET m == (lo + hi) \div 2 IN U8EncRange(cs, lo, m) \o U8EncRange(cs, m + 1, hi)
+U8EncSeq(cs) == U8EncRange(cs, 1, Len(cs))
 
 Cont(b) == b >= 128 /\ b < 192
 RECURSIVE U8DecFrom(_, _)
@@ -125,13 +128,18 @@ FindCRLF(w, i) ==              \* least j >= i with w[j..j+1] = CRLF, 0 if none
     LET S == {j \in i..(Len(w) - 1) : w[j] = 13 /\ w[j + 1] = 10}
     IN IF S = {} THEN 0 ELSE SetMin(S)
 
-RECURSIVE HeadFrom(_, _, _)
-HeadFrom(w, i, acc) ==
-    LET j == FindCRLF(w, i) IN
+CRLFPositions(w) == {j \in 1..(Len(w) - 1) : w[j] = 13 /\ w[j + 1] = 10}     \* one pass over the bytes
+NextIn(P, i) == LET S == {j \in P : j >= i} IN IF S = {} THEN 0 ELSE SetMin(S)
+
+RECURSIVE HeadFrom(_, _, _, _)
+HeadFrom(w, P, i, acc) ==
+    LET j == NextIn(P, i) IN
     IF j = 0 THEN [ok |-> FALSE, lines |-> acc, body |-> Len(w) + 1]
     ELSE IF j = i THEN [ok |-> TRUE, lines |-> acc, body |-> j + 2]
-    ELSE HeadFrom(w, j + 2, Append(acc, SubSeq(w, i, j - 1)))
-SplitHead(w) == HeadFrom(w, 1, <<>>)   \* .lines (without CRLF), .body = index of the first body byte
+    ELSE HeadFrom(w, P, j + 2, Append(acc, SubSeq(w, i, j - 1)))
+\* .lines (without CRLF), .body = index of the first body byte.  Only CRLF pairs up to the first
+\* empty line matter, so the scan stops being consulted there.
+SplitHead(w) == HeadFrom(w, CRLFPositions(w), 1, <<>>)
 
 IndexOfByte(q, x) == LET S == {k \in 1..Len(q) : q[k] = x} IN IF S = {} THEN 0 ELSE SetMin(S)
 FieldName(line) == LET k == IndexOfByte(line, 58) IN IF k = 0 THEN line ELSE SubSeq(line, 1, k - 1)
@@ -190,6 +198,7 @@ ChunkDecode(w) == ChunkFrom(w, 1, <<>>, 0)
      enc      "raw" | "pct" | "qs" | "cookie" | "ext" (charset''pct) | "unknown"
      line     1-based index of the head line that must carry the string
      pre,post bytes around the string on that line (scenario constants)
+     unit     "head": wire is a message head; "body": wire is a part head inside a body
      nfields  number of field lines the scenario has with a harmless string
      body     bytes expected after the head (scenario constant)               *)
 EncodedOK(e, mid) ==
@@ -201,7 +210,10 @@ EncodedOK(e, mid) ==
       [] OTHER -> FALSE
 
 SerClause(e) ==
-    IF e.out = "refused" THEN (IF e.wire # <<>> THEN "PartialWriteOnRefusal" ELSE "")
+    IF e.out = "refused"
+    THEN (IF e.wire = <<>> THEN ""
+          ELSE IF e.unit = "body" THEN "PartialBodyOnRefusal"   \* named deviation: part heads are validated lazily
+          ELSE "PartialWriteOnRefusal")
     ELSE IF e.out # "emitted" THEN "UnknownOutcome"
     ELSE LET h == SplitHead(e.wire)
              raw == e.enc = "raw"
@@ -282,7 +294,7 @@ WLegal(s, e) ==
       [] e.op = "send_headers" -> TRUE
       [] e.op = "write" -> s.hdr # "none" /\ ~s.eof
       [] e.op = "write_eof" -> s.hdr # "none"
-      [] e.op = "set_eof" -> s.hdr # "none" /\ (s.compress => (s.zin = 0 /\ s.zout = 0))   \* set_eof() does not flush a compressor
+      [] e.op = "set_eof" -> s.hdr # "none" /\ (s.eof \/ (s.compress => (s.zin = 0 /\ s.zout = 0)))   \* set_eof() does not flush a compressor
       [] e.op = "drain" -> TRUE
       [] OTHER -> FALSE
 
@@ -410,7 +422,7 @@ EofFramed(s) == (s.eof /\ s.chunked) => (s.wire # <<>> /\ ChunkDecode(Drop(s.wir
                of its own de-framing, zlen = number of coded bytes it inflated
      psize     Payload.size as declared (-1 = None / no payload);
      pwritten  bytes the same payload wrote into a plain collecting writer
-     kind      payload class (only used to name a deviation)                     *)
+     pclass    payload class name (only used to name a deviation)                *)
 MsgClause(m) ==
     LET h == SplitHead(m.wire) IN
     IF ~h.ok THEN "HeadNotTerminated"
@@ -425,7 +437,8 @@ MsgClause(m) ==
         entityOK(ent) == IF m.z THEN (m.zlen = Len(ent) /\ m.inflated = want) ELSE ent = want
     IN
     IF m.psize >= 0 /\ m.psize # Len(m.pwritten)
-       THEN (IF m.kind = "textio" THEN "TextPayloadSizeMismatch" ELSE "PayloadSizeMismatch")
+       THEN (IF m.pclass = "TextIOPayload" THEN "TextPayloadSizeMismatch"    \* named deviation
+             ELSE "PayloadSizeMismatch")
     ELSE IF Cardinality(DOMAIN cls) > 1 \/ cl = -2 THEN "ContentLengthMalformed"
     ELSE IF Cardinality(DOMAIN tes) > 0 /\ ~te THEN "TransferEncodingUnknown"
     ELSE IF te /\ cl # None THEN "LengthAndChunkedBothDeclared"
@@ -438,7 +451,9 @@ MsgClause(m) ==
         ELSE IF ~entityOK(d.data) THEN "ChunkedDataMismatch"
         ELSE ""
     ELSE IF cl # None THEN
-        IF Len(body) = cl /\ entityOK(body) THEN ""
+        \* a length the APPLICATION declared may be under-delivered by the application; it is
+        \* never exceeded and what is sent is the prefix of the data (LengthRespected)
+        IF (m.ulen < 0 /\ Len(body) = cl /\ entityOK(body)) \/ (m.ulen >= 0 /\ cl = m.ulen /\ entityOK(body)) THEN ""
         ELSE LET d == ChunkDecode(body) IN
              IF body # <<>> /\ d.ok /\ d.last /\ d.next > Len(body) /\ entityOK(d.data)
              THEN "ChunkFramingUnderContentLength"       \* named deviation (client chunked=False)
